@@ -136,6 +136,9 @@ impl Case {
     }
 }
 
+/// generous stacks for the shard threads: recursion in the code under test must not abort the harness
+pub const SHARD_STACK: usize = 256 << 20;
+
 pub type StageFn = fn(&Input, &mut Case) -> Result<(), String>;
 
 #[derive(Clone, Copy)]
@@ -418,7 +421,7 @@ impl RunCtx {
             for shard in 0..threads {
                 let abort = &abort;
                 let results = &results;
-                s.spawn(move || {
+                std::thread::Builder::new().stack_size(SHARD_STACK).spawn_scoped(s, move || {
                     let stats = RefCell::new(StageStats::default());
                     let failed = std::cell::Cell::new(false);
                     let cfg = Config {
@@ -482,7 +485,7 @@ impl RunCtx {
                         }),
                     };
                     results.lock().unwrap().push((shard, stats.into_inner(), failure));
-                });
+                }).expect("spawn shard");
             }
         });
         let mut res = results.into_inner().unwrap();
@@ -519,7 +522,7 @@ impl RunCtx {
             for shard in 0..threads {
                 let abort = &abort;
                 let results = &results;
-                s.spawn(move || {
+                std::thread::Builder::new().stack_size(SHARD_STACK).spawn_scoped(s, move || {
                     let mut stats = StageStats::default();
                     let mut failure = None;
                     let mut sample_budget = if shard == 0 { 3usize } else { 0 };
@@ -550,7 +553,7 @@ impl RunCtx {
                         i += threads as u64;
                     }
                     results.lock().unwrap().push((stats, failure));
-                });
+                }).expect("spawn shard");
             }
         });
         let res = results.into_inner().unwrap();
